@@ -190,6 +190,18 @@ CHECKS['C06'] = dict(
          'payload_size_bytes (theorem C06_size_field_flip_accepted, open finding C06/size-field-alteration-reframes-a-crc-valid-message); '
          'such alterations are tested, not proved. Burst = inside one region. zlib.crc32 = CRC-32 is tested, not proved.')
 
+CHECKS['C13'] = dict(
+    text='Lean 4 theorems, for message sequences of any length, that the latch machine of TimeRange.is_in_range (model literal to '
+         'time_range.py) returns exactly the verdicts of the interval specification on every sequence with non-decreasing P1 times, '
+         'that restart() re-establishes this with the origin retained, and that make_absolute, intersect (pointwise conjunction of '
+         'accepted sets, incl. untimed messages, under agreeing origins) and parse yield the described intervals; the model is tied '
+         'to the code on every run (bounded-exhaustive sequences x constructor grid x restart, all range pairs, parse strings: '
+         'verdicts and all attributes), and the Lean spec is run as oracle against TimeRange.',
+    ref='4 C13', technique='Lean 4 refinement proof (latch state machine -> interval predicate, invariant induction) + correspondence',
+    note='Trusted: Lean kernel; propext, Classical.choice, Quot.sound; harness tools/props/c13.py. Times modelled as integers (harness '
+         'uses 0.25 s multiples where float arithmetic is exact); NaN/-inf bounds and out-of-order P1 times excluded; float() external '
+         'to parse; intersect equation under hypothesis Compatible (same relative origin). Two defects fixed in /repo (bd1cbd4, 54efc03).')
+
 NOT_APPLICABLE = []
 
 
